@@ -12,7 +12,7 @@ import vlib
 
 def scenarios(quick, seed):
     out = []
-    n = 96 if quick else 1200
+    n = 160 if quick else 12000
     for j in range(n):
         pol = ["free", "pct", "free", "random"][j % 4]
         out.append({"clients": 2 + j % 3 + (2 if (not quick and j % 16 == 0 and pol == "free") else 0),
